@@ -456,7 +456,8 @@ fn eval_client(w: &World, order: &[Member], enc: &str) -> Res {
             .get_message_part(&ProtocolMessagePartKey::NextAggregateVerificationKey)
             .ok_or("no NextAggregateVerificationKey part")?
             .clone();
-        let key = ProtocolAggregateVerificationKeyForConcatenation::from_json_hex(&hex).map_err(es("message part from_json_hex"))?;
+        // the text is compared as it is; for the key bytes it is read with the nodes' decoder (json-hex, else bytes-hex)
+        let key: ProtocolAggregateVerificationKeyForConcatenation = hex.as_str().try_into().map_err(es("message part does not decode"))?;
         Ok(Out { avk: key.to_bytes().map_err(es("avk to_bytes"))?, json_hex: hex, total: key.get_total_stake(), slots: None })
     }))
 }
@@ -477,7 +478,10 @@ fn diff(a: &Res, b: &Res) -> Option<(&'static str, String)> {
         (Err(_), Err(_)) => None,
         (Ok(_), Err(e)) | (Err(e), Ok(_)) => Some(("fails", format!("one computation fails ({e}) while the other yields a key"))),
         (Ok(x), Ok(y)) => {
-            if x.avk != y.avk || x.json_hex != y.json_hex {
+            if x.avk == y.avk && x.json_hex != y.json_hex {
+                let cut = |t: &str| t.chars().take(96).collect::<String>();
+                Some(("avk", format!("same key bytes, but the text that goes into the signed protocol message differs: {}... vs {}...", cut(&x.json_hex), cut(&y.json_hex))))
+            } else if x.avk != y.avk {
                 Some(("avk", format!("aggregate key {} (total stake {}) vs {} (total stake {})", hex::encode(&x.avk), x.total, hex::encode(&y.avk), y.total)))
             } else if x.total != y.total {
                 Some(("avk", format!("total stake {} vs {}", x.total, y.total)))
@@ -776,8 +780,8 @@ fn level_b_sets(thorough: bool) -> Vec<Vec<Member>> {
         stakes.dedup();
         out.extend(with_stakes(&members, &stakes));
     }
-    // the heavy ones first (load balance); stable, so the order is deterministic
-    out.sort_by_key(|s| std::cmp::Reverse(s.len()));
+    // smallest first (so that the first counterexample kept per key is a smallest one)
+    out.sort_by_key(|s| s.len());
     out
 }
 
@@ -788,18 +792,20 @@ fn level_a_sets(thorough: bool) -> Vec<Vec<Member>> {
     for members in subsets_of_pool(1, POOL) {
         out.extend(with_stakes(&members, &words(alphabet, members.len())));
     }
-    out.sort_by_key(|s| std::cmp::Reverse(s.len()));
+    out.sort_by_key(|s| s.len());
     out
 }
 
 /// Level A: one key per set on two routes in opposite orders; all keys pairwise distinct
 fn level_a(w: &World, sets: &[Vec<Member>], threads: usize, rep: &mut Report) {
-    let res = par_map(sets, threads, |_, set| {
-        let up = set.clone();
-        let mut down = set.clone();
+    let schedule: Vec<&Vec<Member>> = sets.iter().rev().collect();
+    let mut res = par_map(&schedule, threads, |_, set| {
+        let up = (*set).clone();
+        let mut down = up.clone();
         down.reverse();
         (eval_stm(w, &up, "mem", false), eval_sb(w, &down, "message-json", false).aggregator)
     });
+    res.reverse();
     let mut buckets: BTreeMap<Vec<u8>, usize> = BTreeMap::new();
     for (si, (set, (a, b))) in sets.iter().zip(res.iter()).enumerate() {
         rep.eval();
@@ -869,15 +875,18 @@ pub fn run(ctx: &Ctx) -> ! {
     let threads = ctx.threads();
     let mut rep = Report::new(
         "exploration",
-        "every registration set of the family (non-empty subsets of a pool of 5 certified parties, two of whose keys share \
-         the longest common prefix found, stakes from {1,1,2,10}; thorough adds all of {1,2,10}^N and a stake above 2^53) is \
-         registered in EVERY order (N<=4: 24 permutations) on four routes - mithril-stm directly, the signer node's and the \
+        "every registration set of the family - each subset of 1..4 parties out of a pool of 5 certified parties (two of whose \
+         keys share the longest common prefix found among 4096 candidates), with every arrangement of stakes drawn from the \
+         multiset {1,1,2,10} (for N<=2 also from {1,1,2,2^53+1}; thorough: all of {1,2,10}^N and {1,1,2,2^53+1} for every N) - is \
+         registered in EVERY order (N=4: 24 permutations) on four routes - mithril-stm directly, the signer node's and the \
          aggregator's use of SignerBuilder, the client's compute_mithril_stake_distribution_message on the parsed JSON \
          message - with the inputs in memory and after every transport encoding; each evaluation yields key bytes, json-hex \
-         text, total stake and every member's signer slot (read from a signature it makes), which must be identical inside \
-         a set; then one key per set of the whole lattice (sizes 1-5) is computed on two routes in opposite orders and all \
-         keys must be pairwise distinct. A case (set, order, route, encoding) is non-trivial when the registration closed, \
-         a key came out and - on the signing routes - every member obtained a signature carrying its slot",
+         text, total stake and every member's signer slot (read from a signature it makes), all of which must be identical \
+         inside a set, and every signature must be accepted by the aggregator built in another order; then one key per set of \
+         the whole lattice (all subsets of sizes 1-5 x all stake words over {1,2,3,10}, thorough {1,2,3,10,2^53+1}) is computed \
+         on two routes in opposite orders and all keys must be pairwise distinct. A case (set, order, route, encoding) is \
+         non-trivial when the registration closed, a key came out and - on the signing routes - every member obtained a \
+         signature carrying its slot; distinct = distinct (set, order, route, encoding)",
     );
     // the certified fixture writes operational certificates and KES keys under the temp dir
     let scratch = ctx.scratch();
@@ -919,8 +928,10 @@ pub fn run(ctx: &Ctx) -> ! {
     }
 
     let b_sets = level_b_sets(thorough);
-    let parts = par_map(&b_sets, threads, |_, s| check_set(&w, s, thorough));
-    for p in parts {
+    // scheduled heaviest first (load balance), merged smallest first
+    let schedule: Vec<&Vec<Member>> = b_sets.iter().rev().collect();
+    let parts = par_map(&schedule, threads, |_, s| check_set(&w, s, thorough));
+    for p in parts.into_iter().rev() {
         rep.merge(p);
     }
     eprintln!("[C06] level B ({} sets) done at {:.1}s", b_sets.len(), ctx.elapsed_s());
